@@ -705,3 +705,21 @@ func utf8ValidVal(fr *frame, bs []value) value {
 	}
 	return notHandled
 }
+
+// ---- logrus level: the only state of the (otherwise no-op) logging package that acra's code branches on ----
+
+func init() {
+	externals["github.com/sirupsen/logrus.SetLevel"] = func(fr *frame, args []value) value {
+		if fr.i.ex != nil {
+			fr.i.ex.logLevel = uint32(asUint64(args[0]))
+			fr.i.ex.logLevelSet = true
+		}
+		return nil
+	}
+	externals["github.com/sirupsen/logrus.GetLevel"] = func(fr *frame, args []value) value {
+		if fr.i.ex != nil && fr.i.ex.logLevelSet {
+			return fr.i.ex.logLevel
+		}
+		return uint32(4) // logrus.InfoLevel, the library default
+	}
+}
